@@ -101,6 +101,12 @@ def innermost_pharmpy_frame(exc: BaseException) -> str:
     return loc or 'outside-pharmpy'
 
 
+class ResourceLimit(BaseException):
+    """A case exceeded a resource budget of the runner (CPU seconds, address space). BaseException so that
+    `except Exception` in oracles or in the code under test cannot turn it into a verdict; the runner counts
+    the case as inconclusive."""
+
+
 def guard(fn: Callable, *args, allowed=_DOCUMENTED, clause: str = 'internal-error', internal_is_violation=True, **kwargs):
     """Call into the code under test.
 
@@ -118,6 +124,10 @@ def guard(fn: Callable, *args, allowed=_DOCUMENTED, clause: str = 'internal-erro
         if internal_is_violation:
             raise Violation(f'{clause}:RecursionError', detail=str(e)[:300])
         raise Reject('RecursionError')
+    except MemoryError:
+        # the per-process address space limit set by the runner was hit (runaway symbolic computation):
+        # a budget hit, never a verdict
+        raise ResourceLimit('memory')
     except Exception as e:  # noqa
         where = innermost_pharmpy_frame(e)
         if where == 'outside-pharmpy':
